@@ -175,19 +175,22 @@ def runROWS (rest : String) : String :=
 def runC07 (rest : String) : String :=
   match rest.splitOn ";" with
   | hdr :: ops =>
-    let len0 : Option Nat := (hdr.trimAscii.toString).toNat?
+    let htoks := (hdr.trimAscii.toString.splitOn " ").filter (· ≠ "")
+    let len0 : Option Nat := (htoks.getD 0 "none").toNat?
+    let moves : Bool := htoks.getD 1 "m" != "k"
     let parse (s : String) : Option Position.Op :=
       match (s.trimAscii.toString.splitOn " ").filter (· ≠ "") with
       | ["inc", n] => n.toNat?.map .inc | ["dec", n] => n.toNat?.map .dec | ["setpos", n] => n.toNat?.map .setPos
       | ["reset"] => some .reset | ["setlen", n] => n.toNat?.map .setLen | ["inclen", n] => n.toNat?.map .incLen
       | ["declen", n] => n.toNat?.map .decLen | ["unsetlen"] => some .unsetLen | ["finish"] => some .finish
-      | ["abandon"] => some .abandon | _ => none
+      | ["abandon"] => some .abandon | ["resetelapsed"] => some .resetElapsed | ["reseteta"] => some .resetEta
+      | ["finishstyle"] => some .finishStyle | _ => none
     match ops.mapM parse with
     | none => "bad-op"
     | some os =>
       let (_, outs) := os.foldl (fun (acc : Position.St × List String) o =>
         let s := Position.step acc.1 o
-        (s, acc.2 ++ [s!"{s.pos},{match s.len with | some l => toString l | none => "none"},{s.finished}"])) (({ len := len0 } : Position.St), [])
+        (s, acc.2 ++ [s!"{s.pos},{match s.len with | some l => toString l | none => "none"},{s.finished}"])) (({ len := len0, moves := moves } : Position.St), [])
       " ".intercalate outs
   | _ => "bad-op"
 
